@@ -80,6 +80,39 @@ selidx!(c01_selidx_4w_rate100, 4, 100);
 selidx!(c01_selidx_4w_rate256, 4, 256);
 selidx!(c01_selidx_3w_rate4096, 3, 4096);
 
+/// Larger k: a concrete dense skeleton (alternating-bit words, 32 ones each) with
+/// one arbitrary word, non-power-of-two rates. jump_to must still land at or
+/// before the k-th one with the right remainder. (Reaches sample slots far beyond
+/// what 4 fully symbolic words can hold.)
+macro_rules! selidx_dense {
+    ($name:ident, $n:expr, $rate:expr) => {
+        #[kani::proof]
+        #[kani::stub(alloc::vec::Vec::push, crate::stubs::push_no_grow)]
+        #[kani::stub(alloc::vec::Vec::with_capacity, crate::stubs::with_capacity_const)]
+        #[kani::unwind(6)]
+        fn $name() {
+            let mut w = [0xAAAA_AAAA_AAAA_AAAAu64; $n];
+            let x: u64 = kani::any();
+            kani::assume(x.count_ones() == 32);
+            w[$n / 2] = x;
+            let total = 32 * $n;
+            let idx = SelectIndex::<u64>::build(&w, total, $rate);
+            let k: usize = kani::any();
+            kani::assume(k < total);
+            let (sw, rem) = idx.jump_to(k);
+            assert!(sw < $n);
+            assert!(prefix(&w, sw) + rem == k);
+            kani::cover!(sw > $n / 2 && rem > 0);
+            kani::cover!(k > 1000);
+            core::mem::forget(idx);
+        }
+    };
+}
+selidx_dense!(c01_selidx_dense48_rate100, 48, 100);
+selidx_dense!(c01_selidx_dense48_rate255, 48, 255);
+selidx_dense!(c01_selidx_dense48_rate1000, 48, 1000);
+selidx_dense!(c01_selidx_dense48_rate7, 48, 7);
+
 // ---- shared scan ---------------------------------------------------------------
 
 /// `scan_select(words, S, rem)`: `Some((w, r))` iff the ones in words[S..w]
